@@ -17,6 +17,7 @@ from pathlib import Path
 HERE = Path(__file__).resolve().parent.parent
 sys.path.insert(0, str(HERE))
 sys.path.append(str(HERE / ".deps"))
+sys.path.append("/verif/.deps")  # snapshots of /verif (vp run) do not carry the untracked .deps directory
 sys.path.insert(0, os.path.join(os.environ.get("VERIF_REPO", "/repo"), "src"))
 
 import atheris  # noqa: E402
